@@ -18,7 +18,9 @@ RULE = ("Hypothesis draws 2-3 scripts from a corpus of 12 (all verbs, STOR/APPE/
         "latency and segmentation), backend delays (read/write/list/open/stat) and optionally a victim session that is "
         "cut (peer vanishes) at delivery event k while the others continue. Oracle: each surviving session's transcript "
         "(reply codes and texts, transferred bytes, listings; ports and timestamps normalised) equals the transcript of "
-        "the same script run alone, and its subtree at the end equals the solo subtree. Non-trivial = at least two "
+        "the same script run alone, and its subtree at the end equals the solo subtree. In a third of the different-user cases "
+        "the users have their own base directories and all work under the SAME virtual names with different permissions "
+        "on them (u2: /s/sub read-only, /s/x/y unreadable; u3: /s read-only). Non-trivial = at least two "
         "sessions had a transfer in flight at the same virtual time; distinct by hash of the case.")
 ASSUMPTIONS = [
     "sessions work on disjoint subtrees (same-path concurrency is outside the property)",
@@ -74,14 +76,29 @@ def normalise(transcript):
     return out
 
 
-def make_server(delays=None):
+VROOT = "/s"
+# users of the `vroots` mode: own base directory each, the same virtual names, different rights on them
+VPERMS = {"u1": [], "u2": [("/s/sub", True, False), ("/s/x/y", False, True)], "u3": [("/s", True, False)]}
+
+
+def make_server(delays=None, vroots=False):
     ctl = harness.Ctl()
     ctl.record = False
     if delays:
         ctl.delays = dict(delays)
-    users = [aioftp.User()] + [aioftp.User(u[0], u[1]) for u in USERS if u]
+    if vroots:
+        users = [aioftp.User(u[0], u[1], base_path="/base_" + u[0], home_path="/",
+                             permissions=[aioftp.Permission("/")] + [aioftp.Permission(p_, readable=r_, writable=w_) for p_, r_, w_ in VPERMS[u[0]]])
+                 for u in USERS if u]
+    else:
+        users = [aioftp.User()] + [aioftp.User(u[0], u[1]) for u in USERS if u]
     server = aioftp.Server(users, path_io_factory=instrument(aioftp.MemoryPathIO, ctl), wait_future_timeout=2, block_size=128)
     return server
+
+
+def prepare(server, vroots):
+    if vroots:
+        harness.mem_populate(server, {"/base_" + u[0]: harness.DIR for u in USERS if u})
 
 
 def subtree(tree, root):
@@ -91,27 +108,33 @@ def subtree(tree, root):
 _SOLO = {}
 
 
-def solo(name, root, user):
-    key = (name, root, user)
+def real_root(root, user, vroots):
+    return "/base_" + user[0] if vroots else root  # everything below the user's base directory
+
+
+def solo(name, root, user, vroots=False):
+    key = (name, root, user, vroots)
     if key not in _SOLO:
         async def go(loop):
-            server = make_server()
+            server = make_server(vroots=vroots)
             await server.start(HOST, PORT)
+            prepare(server, vroots)
             r = ScriptRunner(render(personalise(ALL[name], user, root), root))
             await r.run()
             r.close()
             await asyncio.sleep(0.5)
             tree = harness.mem_tree(server)
             await server.close()
-            return normalise(r.transcript), subtree(tree, root)
+            return normalise(r.transcript), subtree(tree, real_root(root, user, vroots))
 
         _SOLO[key] = simnet.run(go)
     return _SOLO[key]
 
 
-async def _concurrent(loop, sessions, delays, cut, info):
-    server = make_server(delays)
+async def _concurrent(loop, sessions, delays, cut, info, vroots=False):
+    server = make_server(delays, vroots)
     await server.start(HOST, PORT)
+    prepare(server, vroots)
     runners = [ScriptRunner(render(personalise(ALL[name], user, root), root)) for name, root, user in sessions]
     overlap = [0]
 
@@ -151,21 +174,24 @@ async def _concurrent(loop, sessions, delays, cut, info):
 def check(ctx, case):
     picks, same_user, tape, delays, cut = case
     sessions = []
+    # third mode (drawn through the first pick): different users, each confined to its own base directory, all working
+    # under the SAME virtual names with different rights on them - what one user may do under a name says nothing about another
+    vroots = (not same_user) and picks[0] % 3 == 0
     for i, ni in enumerate(picks):
         user = None if same_user else USERS[1 + i % 3]
-        sessions.append((NAMES[ni % len(NAMES)], "/s%d" % i, user))
+        sessions.append((NAMES[ni % len(NAMES)], VROOT if vroots else "/s%d" % i, user))
     info = {}
     victim = None
     if cut is not None:
         victim = cut[0] % len(sessions)
     try:
-        transcripts, tree = simnet.run(lambda loop: _concurrent(loop, sessions, dict(delays), cut, info), tape)
+        transcripts, tree = simnet.run(lambda loop: _concurrent(loop, sessions, dict(delays), cut, info, vroots), tape)
         if info.get("hung"):
             raise Violation("C17/session_hung", dict(sessions=sessions))
         for i, (name, root, user) in enumerate(sessions):
             if i == victim and info.get("cut_done"):
                 continue
-            exp_t, exp_tree = solo(name, root, user)
+            exp_t, exp_tree = solo(name, root, user, vroots)
             got = transcripts[i]
             if got != exp_t:
                 j = next((k for k, (a, b) in enumerate(zip(got, exp_t)) if a != b), min(len(got), len(exp_t)))
@@ -176,14 +202,15 @@ def check(ctx, case):
                 raise Violation(f"C17/transcript_differs_from_solo/{what}/{verb}",
                                 dict(session=i, script=name, user=user, step=j, got=a, solo=b, others=[s for k, s in enumerate(sessions) if k != i],
                                      cut=cut if info.get("cut_done") else None))
-            if subtree(tree, root) != exp_tree:
-                raise Violation("C17/final_subtree_differs_from_solo", dict(session=i, script=name,
-                                                                              got=sorted(subtree(tree, root)), solo=sorted(exp_tree)))
+            if subtree(tree, real_root(root, user, vroots)) != exp_tree:
+                raise Violation("C17/final_subtree_differs_from_solo", dict(session=i, script=name, user=user, same_virtual_names=vroots,
+                                                                              got=sorted(subtree(tree, real_root(root, user, vroots))),
+                                                                              solo=sorted(exp_tree)))
     finally:
         ctx.count(case, info.get("overlap", 0) > 0,
                   sample=dict(sessions=[(n, r, u[0] if u else "anonymous") for n, r, u in sessions], tape=tape[:8], delays=delays,
                               cut=cut, transfers_overlapping_samples=info.get("overlap")),
-                  classes=["n_%d" % len(sessions), "same_user" if same_user else "different_users"]
+                  classes=["n_%d" % len(sessions), "same_user" if same_user else ("same_virtual_names" if vroots else "different_users")]
                   + (["overlap"] if info.get("overlap") else []) + (["cut"] if info.get("cut_done") else [])
                   + ["script_" + s[0] for s in sessions])
 
